@@ -584,6 +584,31 @@ func runOtherCorruption(b *harness.B, rng *rand.Rand) {
 			}
 		}
 	}
+	// Currency with a unit suffix: the number is a plain decimal there too
+	curParse := func(s string) (string, error) {
+		c, err := types.ParseCurrency(s)
+		return c.String(), err
+	}
+	for _, n := range []string{"10", "11", "17", "777"} {
+		s := n + " SC"
+		if got, err := curParse(s); err != nil || got != s {
+			b.Violate("C20/corruption/types.Currency/unit-suffixed/positive-control", fmt.Sprintf("canonical %q not accepted as itself: %q %v", s, got, err), s)
+			continue
+		}
+		b.Count("corruption_positive_controls", 1)
+		for _, c := range []corruption{
+			{class: "leading-zero", s: "0" + s},
+			{class: "hex-prefix", s: "0x" + s},
+			{class: "binary-prefix", s: "0b" + s},
+			{class: "octal-prefix", s: "0o" + s},
+			{class: "digit-separator", s: n[:1] + "_" + n[1:] + " SC"},
+			{class: "quotient-with-a-leading-zero", s: "0" + n + "/1 SC"},
+			{class: "hexadecimal-fraction", s: "0x" + n + ".8 SC"},
+		} {
+			judge(b, "types.Currency/unit-suffixed", c.class, s, c.s, false, false, curParse)
+			b.Distinct("corrupt", "types.Currency/unit-suffixed", c.class)
+		}
+	}
 	// Work: non-negative decimal below 2^256
 	wkParse := func(s string) (string, error) {
 		var w consensus.Work
